@@ -25,7 +25,7 @@ BOUNDS = {
     "quick": "free octets per stream <= 6 (all 65536 values of the first two header octets in every context: role x failByDrop x {outside,inside text,inside binary message} x compression on/off), 13 stream templates (extended 16/64-bit lengths, close payloads with free code and reason, fragmented text with free octets, ping inside a fragmented message), feeding whole / octet-wise / one cut at every position",
     "thorough": "free octets per stream <= 9, all templates x both roles x both fail modes, every 1-cut and octet-wise split",
 }
-EXPECT_COVERS = ["t:incomplete", "t:pv", "t:ip", "t:close", "ev:msg", "ev:ping", "ev:pong", "mode:drop", "mode:handshake"]
+EXPECT_COVERS = ["validator:nvx-wrapper", "t:incomplete", "t:pv", "t:ip", "t:close", "ev:msg", "ev:ping", "ev:pong", "mode:drop", "mode:handshake"]
 BUDGET = {"quick": dict(wall_s=400, max_paths=60000, diff_samples=3), "thorough": dict(wall_s=3000, max_paths=600000)}
 
 VALID_CLOSE = [1000, 1001, 1002, 1003, 1007, 1008, 1009, 1010, 1011]
@@ -206,7 +206,7 @@ def _build(sx, template, server):
     return out
 
 
-def rx(sx, server, fbd, compress, template, split, fw="twisted"):
+def rx(sx, server, fbd, compress, template, split, fw="twisted", validator="py"):
     if fw == "asyncio":
         # the asyncio adapter queues what data_received() gets and decodes it from a loop callback: "queued:c" hands over two segments before
         # the loop runs, "stepped:c" lets the loop run in between - the verdict is the same as for the whole stream
@@ -217,6 +217,12 @@ def rx(sx, server, fbd, compress, template, split, fw="twisted"):
     p = ep.p
     if compress:
         p._perMessageCompress = _IdentityPMCE()
+    if validator == "nvx":
+        # the validator class a default installation uses: the cffi wrapper autobahn.nvx._utf8validator.Utf8Validator, here over the
+        # contract model of its C kernel (see C09); the endpoint's judgement must not depend on which class validates
+        from . import c09
+        p.utf8validator = c09._mk_validator(sx, "nvx")
+        sx.cover("validator:nvx-wrapper")
     data = _build(sx, template, server)
     n = len(data)
     exc = None
@@ -360,6 +366,9 @@ def templates(tier, server, fbd):
     # a close frame with a free status code and reason arriving between the fragments of a text message whose first fragment may end
     # inside a multi-octet code point (the close reason is judged on its own, independent of the message in progress)
     L.append(T("text-frag+close", ("frame", 1, ("sym", 1), False, 0), ("frame", 8, ("sym", 3 if q else 5), True, 0)))
+    # fragmented text whose last / middle fragment is empty: the verdict at the end of the message is about everything received so far
+    L.append(T("text-frag-empty-final", ("frame", 1, ("sym", 2), False, 0), ("frame", 0, ("lit", b""), True, 0)))
+    L.append(T("text-frag-empty-mid", ("frame", 1, ("sym", 1), False, 0), ("frame", 0, ("lit", b""), False, 0), ("frame", 0, ("sym", 1), True, 0)))
     L.append(T("text-1frame", ("frame", 1, ("sym", 4 if q else 5), True, 0)))
     L.append(T("bin+ping+pong", ("frame", 2, ("sym", 2), True, 0), ("frame", 9, ("sym", 2), True, 0), ("frame", 10, ("sym", 1), True, 0)))
     return L
@@ -385,6 +394,10 @@ def units(tier):
                     for sp in splits:
                         U.append(("%s/%s/%s/%s/%s" % ("S" if server else "C", "drop" if fbd else "hs", name, "z" if compress else "-", sp),
                                   "rx", dict(server=server, fbd=fbd, compress=compress, template=tpl, split=sp), dict(weight=n)))
+                if name in ("text-frag", "text-frag-empty-final", "text-frag-empty-mid", "text-1frame", "text-frag+close") and (tier != "quick" or fbd != server):
+                    for sp in ("whole", "bytewise"):
+                        U.append(("nvx/%s/%s/%s/%s" % ("S" if server else "C", "drop" if fbd else "hs", name, sp), "rx",
+                                  dict(server=server, fbd=fbd, compress=False, template=tpl, split=sp, validator="nvx"), dict(weight=n)))
                 # the asyncio adapter's receive queue: a few templates, segments piled up in the queue or separated by a loop turn
                 if name in ("text-frag", "bin+ping+pong", "close-reason") and fbd == server:
                     for sp in ("queued:3", "stepped:3", "queued:%d" % (n - 2)):
